@@ -120,7 +120,8 @@ def check(ctx, run):
     okr = bool(dec) and all(_is_cmp(r2["cond"][0][0], f_lo, f_hi, {"gt", "ge"}) for r2 in dec)
     recs = [[e for e in r2["events"] if e["kind"] == "call" and e["callee"] == bis.qualname][:1] for r2 in dec]
     recs = [e for l in recs for e in l]
-    okr = okr and bool(recs) and all(same(e["args"][1], Op("neg", (tg,))) and e["args"][2:4] == [lo, hi] and e["kwargs"].get("precision") == W.fl("precision") and e["kwargs"].get("max_iter") == W.integer("max_iter") for e in recs)
+    okr = okr and bool(recs) and all(same(e["bound"].get("target"), Op("neg", (tg,))) and [e["bound"].get("lower"), e["bound"].get("upper")] == [lo, hi]
+                                     and e["bound"].get("precision") == W.fl("precision") and e["bound"].get("max_iter") == W.integer("max_iter") for e in recs)
     run.oblige("C19.R2", "decreasing fn: recurse on (-fn, -target) with the same bracket, precision and bound", okr, "")
     if not okr:
         run.fail(Finding("C19.R2", bis.qualname, "bisect(mf, -target, lower, upper, precision=precision, max_iter=max_iter) when fn(lower) > fn(upper)", "a decreasing function is not reduced to the increasing case", file=str(prog.modules[bis.module].path), line=bis.node.lineno))
